@@ -48,7 +48,7 @@ INSTANTS = [
     BASE + _dt.timedelta(days=1),
     BASE + _dt.timedelta(days=1, seconds=1),
 ]
-WALL_BUDGET_S = {"quick": 200, "thorough": 3300}
+WALL_BUDGET_S = {"quick": 200, "thorough": 6000}
 
 
 def budget(tier):
